@@ -63,9 +63,12 @@ WORK_US = [0, 30_000, 100_000, 250_000, 1_000_000]
 def _body(w, allow_raise=True):
     steps = []
     for _ in range(w.randint(0, 8)):
-        k = w.weighted([("work", 5), ("msg", 3), ("busy", 2)])
+        k = w.weighted([("work", 5), ("msg", 3), ("busy", 2), ("jump", 0.6)])
         if k == "work":
             steps.append(["work", w.pick(WORK_US)])
+        elif k == "jump":
+            # clock fault: the wall clock is stepped (NTP, suspend/resume) while the spinner runs
+            steps.append(["jump", w.pick([-2_000_000, -150_000, 400_000, 30_000_000])])
         elif k == "busy":
             # the caller computes without blocking: k scheduling points, each costing the quantum,
             # during which the spinner may wake up - both threads are runnable and the scheduler decides
@@ -320,6 +323,11 @@ def _auto(sc, res, clock, log):
                     elif st[0] == "busy":
                         for _ in range(st[1]):
                             sched.yield_point("busy")
+                    elif st[0] == "jump":
+                        clock.advance_us(st[1])
+                        log.add("clock_jump", st[1])
+                        res.fault("clock_jump_backward" if st[1] < 0 else "clock_jump_forward")
+                        sched.yield_point("clock_jump")
                     elif st[0] == "msg":
                         res.probe("set_message_while_spinning")
                         ind.set_message(st[1])
